@@ -49,6 +49,8 @@ class Recorder:
         self.param_names: Dict[int, List[str]] = {}
         self.finished_ids: Dict[int, "FrameRec"] = {}
         self.active = False
+        self.events: List[FrameRec] = []  # one entry per frame activation (start / resume / throw), in order: the legacy
+        #                                   profiler reports each of them as a 'call' event
 
     # -- parameter names from the code object's signature (not from co_varnames slicing)
     def names_of(self, code: CodeType) -> List[str]:
@@ -85,6 +87,7 @@ class Recorder:
                 rec.args[n] = self.typer(loc[n])
         self.frames[id(fr)] = rec
         self.all.append(rec)
+        self.events.append(rec)
         return None
 
     def on_resume(self, code: CodeType, offset: int) -> Any:
@@ -94,6 +97,7 @@ class Recorder:
         if rec is not None:
             rec.resumes += 1
             rec.last_event = "resume"
+            self.events.append(rec)
         return None
 
     def on_throw(self, code: CodeType, offset: int, exc: BaseException) -> Any:
@@ -113,7 +117,9 @@ class Recorder:
             self.frames[id(fr)] = rec
             self.all.append(rec)
             rec.last_event = "throw-unstarted"
+            self.events.append(rec)
             return None
+        self.events.append(rec)
         rec.last_event = "throw"
         rec.throw_offset = offset
         return None
